@@ -160,3 +160,123 @@ def probe_families():
             seen.add(fen)
             res.append((fam, fen))
     return res
+
+
+DIRS = [(1, 0), (-1, 0), (0, 1), (0, -1), (1, 1), (1, -1), (-1, 1), (-1, -1)]
+
+
+def _attacked_by_white_simple(g, sq):
+    """is `sq` attacked by a white king or pawn (the only white non-slider pieces these families place)"""
+    r, f = sq
+    for (pr, pf), c in g.items():
+        if c == "K" and max(abs(pr - r), abs(pf - f)) <= 1:
+            return True
+        if c == "P" and pr + 1 == r and abs(pf - f) == 1:
+            return True
+    return False
+
+
+def _place_black_king(g, avoid):
+    for sq in ((7, 0), (7, 7), (7, 3), (0, 0), (0, 7), (7, 5), (0, 3), (2, 0), (2, 7)):
+        if sq in g or sq in avoid:
+            continue
+        if _attacked_by_white_simple(g, sq):
+            continue
+        return sq
+    return None
+
+
+def line_geometry_families():
+    """Lines through the own king: every king square x every direction x the pawns of an en-passant
+    capture (the captured pawn and/or the capturing pawn as the only blockers in front of an enemy
+    slider), and every own piece type pinned on every direction.  White to move, and mirrored."""
+    out = []
+    files = "abcdefgh"
+    # (g) en passant x lines through the king
+    for f in range(8):
+        for df in (-1, 1):
+            cf = f + df
+            if not 0 <= cf < 8:
+                continue
+            pawns = {(4, f): "p", (4, cf): "P"}
+            reserved = {(5, f), (6, f)}            # must stay empty: the double push just happened
+            for kr in range(8):
+                for kf in range(8):
+                    K = (kr, kf)
+                    if K in pawns or K in reserved:
+                        continue
+                    for di, (dr, dc) in enumerate(DIRS):
+                        ray = []
+                        r, c = kr + dr, kf + dc
+                        while 0 <= r < 8 and 0 <= c < 8:
+                            ray.append((r, c))
+                            r, c = r + dr, c + dc
+                        hits = [i for i, sq in enumerate(ray) if sq in pawns]
+                        if not hits:
+                            continue
+                        beyond = [sq for sq in ray[hits[-1] + 1:]]
+                        if not beyond:
+                            continue
+                        for far in (0, len(beyond) - 1):
+                            S = beyond[far]
+                            if S in reserved or S in pawns:
+                                continue
+                            between = ray[:ray.index(S)]
+                            if any(sq in reserved for sq in ()):  # reserved squares may lie on the line: they are empty anyway
+                                continue
+                            slider = "q" if (kr + kf + di) % 2 == 0 else ("r" if dr == 0 or dc == 0 else "b")
+                            g = dict(pawns)
+                            g[K] = "K"
+                            g[S] = slider
+                            bk = _place_black_king(g, reserved | set(ray))
+                            if bk is None:
+                                continue
+                            g[bk] = "k"
+                            out.append(("ep-line", board_to_fen(g, "w", None, files[f] + "6", 0, 3)))
+                            out.append(("ep-line", board_to_fen(mirror_fen_grid(g), "b", None, files[f] + "3", 0, 3)))
+    # (h) every own piece type pinned on every direction at distance 1..2 from the king, slider further out
+    for K in ((0, 4), (3, 3), (7, 7), (4, 0)):
+        for di, (dr, dc) in enumerate(DIRS):
+            ray = []
+            r, c = K[0] + dr, K[1] + dc
+            while 0 <= r < 8 and 0 <= c < 8:
+                ray.append((r, c))
+                r, c = r + dr, c + dc
+            if len(ray) < 2:
+                continue
+            for dist in (0, 1):
+                if dist + 1 >= len(ray):
+                    continue
+                for own in "QRBNP":
+                    if own == "P" and ray[dist][0] in (0, 7):
+                        continue
+                    for S in (ray[dist + 1], ray[-1]):
+                        slider = "q" if (dist + di) % 2 == 0 else ("r" if dr == 0 or dc == 0 else "b")
+                        g = {K: "K", ray[dist]: own, S: slider}
+                        bk = _place_black_king(g, set(ray))
+                        if bk is None:
+                            continue
+                        g[bk] = "k"
+                        out.append(("pin-line", board_to_fen(g, "w", None, None)))
+                        out.append(("pin-line", board_to_fen(mirror_fen_grid(g), "b", None, None)))
+    seen, res = set(), []
+    for fam, fen in out:
+        if fen not in seen:
+            seen.add(fen)
+            res.append((fam, fen))
+    return res
+
+
+def clock_families():
+    """Counters near their boundaries: half-move clocks around the fifty-move limit (98..102), the u8 edge (254..257)
+    and full-move numbers up to 6000, on positions where quiet moves, captures and pawn moves are all available;
+    used as STARTS of walks, so that the clock is stepped across the boundary by play (not only loaded)."""
+    base = ["4k3/8/8/8/8/8/8/4K2R w K - %d %d", "r3k2r/pppq1ppp/2n2n2/3pp3/3PP3/2N2N2/PPPQ1PPP/R3K2R w KQkq - %d %d",
+            "8/5k2/3p4/1p1Pp2p/pP2Pp1P/P4P1K/8/8 b - - %d %d", "r1bq1rk1/pp2ppbp/2np1np1/8/3NP3/2N1BP2/PPPQ2PP/R3KB1R b KQ - %d %d"]
+    out = []
+    for b in base:
+        for hm in (0, 49, 97, 98, 99, 100, 101, 102, 149, 254, 255, 256, 300):
+            for fm in (1, 60, 5999):
+                if fm == 60 or hm in (98, 99, 100, 255):
+                    out.append(("clock", b % (hm, fm)))
+    return out
